@@ -35,8 +35,11 @@ pub const NP_VALUES: &[Option<&str>] = &[
     Some("x.test, * ,y.test"),
     // a blank in front of a leading dot
     Some("other.test, .probe.test"),
+    // IP literals as entries (an IPv6 literal in the bracketed form in which it appears in a URL)
+    Some("[::1]"),
+    Some("other.test, [::1] ,127.0.0.1"),
 ];
-pub const PROBES: &[&str] = &["probe.test", "sub.probe.test", "PROBE.test"];
+pub const PROBES: &[&str] = &["probe.test", "sub.probe.test", "PROBE.test", "[::1]", "127.0.0.1"];
 
 /// explicit URL ports the probes are repeated with
 const PORTS: &[u16] = &[80, 443, 8080, 65535];
@@ -107,7 +110,8 @@ fn var_value(var: usize, class: u8) -> Option<String> {
         3 => Some(format!("{}://{up}-{name}.test:3128", if var == 1 || var == 4 { "HTTP" } else { "http" })),
         4 => Some(format!("{}://{up}-{name}.test", if var == 2 || var == 5 { "Https" } else { "https" })),
         5 => Some("socks5://socks.test:1080".to_string()),
-        _ => Some("::not a url".to_string()),
+        // neither a URL nor an http(s) one: a different spelling per variable (scheme-less host:port pairs and bare hosts included)
+        _ => Some(["::not a url", "127.0.0.1:3128", "[::1]:3128", "proxyhost", "10.0.0.1", "localhost:3128"][var % 6].to_string()),
     }
 }
 
@@ -148,8 +152,8 @@ impl Property for C11 {
     const ID: &'static str = "C11";
     const RULE: &'static str = "Domain A (builder): hosts = all 1..3-label names over {a, b, ab} plus mixed-case, IPv4 and IPv6 literals; no-proxy lists of 0..3 entries over the same names plus \"\", leading dots, \
 upper case, surrounding blanks, IP fragments; scheme {http, https, ftp}; proxies for none/one/both schemes - lists of <= 2 entries enumerated exhaustively in the thorough tier. Domain B (environment): assignments of \
-{http_proxy, HTTP_PROXY, https_proxy, HTTPS_PROXY, all_proxy, ALL_PROXY} over {unset, empty, blank, valid http URL, valid https URL, socks5 URL, garbage} (all 7^6 = 117 649 in thorough) and of no_proxy / NO_PROXY over 21 values \
-each (all 441 pairs), observed through for_url on three probe hosts and both schemes; every probe is repeated with the explicit ports 80, 443, 8080, 65535 (the choice must not change). Oracle = the selection model. non-trivial = a no-proxy entry that is a proper suffix of / shares a suffix with the host, or >= 2 environment variables set";
+{http_proxy, HTTP_PROXY, https_proxy, HTTPS_PROXY, all_proxy, ALL_PROXY} over {unset, empty, blank, valid http URL, valid https URL, socks5 URL, garbage} (all 7^6 = 117 649 in thorough) and of no_proxy / NO_PROXY over 23 values \
+each (all 529 pairs), observed through for_url on five probe hosts (three names, an IPv6 and an IPv4 literal) and both schemes; every probe is repeated with the explicit ports 80, 443, 8080, 65535 (the choice must not change). Oracle = the selection model. non-trivial = a no-proxy entry that is a proper suffix of / shares a suffix with the host, or >= 2 environment variables set";
 
     fn assumptions() -> Vec<String> {
         vec![
@@ -226,11 +230,22 @@ each (all 441 pairs), observed through for_url on three probe hosts and both sch
                     }
                     ctx.label("builder:no-proxy-hosts-named-before-the-proxies");
                 }
-                if proxies & 1 != 0 {
-                    b = b.http_proxy(p_http.clone());
-                }
-                if proxies & 2 != 0 {
-                    b = b.https_proxy(p_https.clone());
+                // the last call of a setter is the one that counts: a third of the cases first configure a decoy for both schemes and
+                // then say what they mean, `None` included
+                let revised = (host.len() * 3 + ents.len() + *scheme as usize + *proxies as usize * 5) % 3 == 0;
+                if revised {
+                    let decoy = url::Url::parse("http://decoy.test:9").unwrap();
+                    b = b.http_proxy(decoy.clone()).https_proxy(decoy);
+                    b = b.http_proxy(if proxies & 1 != 0 { Some(p_http.clone()) } else { None });
+                    b = b.https_proxy(if proxies & 2 != 0 { Some(p_https.clone()) } else { None });
+                    ctx.label("builder:proxy-setters-called-twice");
+                } else {
+                    if proxies & 1 != 0 {
+                        b = b.http_proxy(p_http.clone());
+                    }
+                    if proxies & 2 != 0 {
+                        b = b.https_proxy(p_https.clone());
+                    }
                 }
                 if !entries_first {
                     for e in &ents {
